@@ -189,13 +189,17 @@ class Join(Operator):
         for op in operands:
             if len(op.get_identifiers()) == 0:
                 raise SemanticError("1-2-10", op=cls.op)
-        cls.reference_dataset = (
+        reference_dataset = (
             max(operands, key=lambda x: len(x.get_identifiers_names()))
             if cls.how not in ["cross", "left"]
             else operands[0]
         )
-        cls.identifiers_validation(operands, using)
-        components = cls.merge_components(operands, using)
+        # The reference dataset belongs to this call. Bind it on a throw-away subclass instead of
+        # on the shared operator class: concurrent validations of the same kind of join would
+        # otherwise validate (and merge components) against each other's reference dataset.
+        bound = type(cls.__name__, (cls,), {"reference_dataset": reference_dataset})
+        bound.identifiers_validation(operands, using)
+        components = bound.merge_components(operands, using)
         if len(set(components.keys())) != len(components):
             raise SemanticError("1-1-13-9", comp_name="")
 
